@@ -19,14 +19,17 @@ import (
 // Job is one (harness, parameters, bound) exploration; jobs are independent and are spread over
 // worker processes (one scheduler per process, GOMAXPROCS=1 each).
 type Job struct {
-	Harness  string         `json:"harness"`
-	Params   map[string]int `json:"params"`
-	Bound    int            `json:"bound"`
-	MaxExecs int64          `json:"max_execs,omitempty"`
-	BudgetS  float64        `json:"budget_s,omitempty"`
-	Shard    int            `json:"shard,omitempty"`
-	NShards  int            `json:"nshards,omitempty"`
-	Choices  []int          `json:"choices,omitempty"` // replay only
+	Harness       string         `json:"harness"`
+	Params        map[string]int `json:"params"`
+	Bound         int            `json:"bound"`
+	MaxExecs      int64          `json:"max_execs,omitempty"`
+	BudgetS       float64        `json:"budget_s,omitempty"`
+	Shard         int            `json:"shard,omitempty"`
+	NShards       int            `json:"nshards,omitempty"`
+	NoCache       bool           `json:"nocache,omitempty"`
+	Delay         bool           `json:"delay,omitempty"`          // bound counts delays instead of preemptions
+	FallbackDelay int            `json:"fallback_delay,omitempty"` // if the unbounded search hits its budget: complete a delay-bounded search with this bound instead (0 = none)
+	Choices       []int          `json:"choices,omitempty"`        // replay only
 }
 
 type JobResult struct {
@@ -59,8 +62,10 @@ func (j Job) String() string {
 	}
 	if j.Bound < 0 {
 		sb.WriteString(" bound=unbounded")
+	} else if j.Delay {
+		fmt.Fprintf(&sb, " delays<=%d", j.Bound)
 	} else {
-		fmt.Fprintf(&sb, " bound=%d", j.Bound)
+		fmt.Fprintf(&sb, " preemptions<=%d", j.Bound)
 	}
 	return sb.String()
 }
@@ -71,12 +76,24 @@ func runJob(j Job) JobResult {
 		fmt.Fprintf(os.Stderr, "INFRA: unknown harness %q\n", j.Harness)
 		os.Exit(2)
 	}
-	cfg := vsched.Config{Bound: j.Bound, Params: j.Params, MaxExecs: j.MaxExecs, Shard: j.Shard, NShards: j.NShards}
+	cfg := vsched.Config{Bound: j.Bound, Params: j.Params, MaxExecs: j.MaxExecs, Shard: j.Shard, NShards: j.NShards, NoCache: j.NoCache, Delay: j.Delay}
 	if j.BudgetS > 0 {
 		cfg.Deadline = time.Now().Add(time.Duration(j.BudgetS * float64(time.Second)))
 	}
 	start := time.Now()
 	r := vsched.Explore(cfg, h)
+	if r.Capped != "" && j.FallbackDelay > 0 && len(r.Failures) == 0 {
+		// the unbounded search did not finish in its budget: complete a delay-bounded one and report that bound
+		j.Bound, j.Delay = j.FallbackDelay, true
+		cfg.Bound, cfg.Delay, cfg.Deadline = j.FallbackDelay, true, time.Time{}
+		r2 := vsched.Explore(cfg, h)
+		r2.Executions += r.Executions
+		r2.Transitions += r.Transitions
+		for o, n := range r.Outcomes {
+			r2.Outcomes[o] += n
+		}
+		r = r2
+	}
 	return JobResult{Job: j, Executions: r.Executions, Complete: r.Complete, Transitions: r.Transitions, States: r.States, Pruned: r.Pruned,
 		MaxPoints: r.MaxPoints, MaxTasks: r.MaxTasks, Outcomes: r.Outcomes, Failures: r.Failures, Capped: r.Capped, Diverged: r.Diverged,
 		HorizonHits: r.HorizonHits, WallS: time.Since(start).Seconds()}
@@ -182,6 +199,8 @@ func runJobs(c *vk.Ctx, jobs []Job) []JobResult {
 	sort.Slice(results, func(i, k int) bool { return results[i].Job.String() < results[k].Job.String() })
 	minBound := 1 << 30
 	unbounded := true
+	nBounded := 0
+	anyDelay, anyPre := false, false
 	for _, r := range results {
 		c.P.TracesValidated += r.Executions
 		c.P.Transitions += r.Transitions
@@ -198,8 +217,14 @@ func runJobs(c *vk.Ctx, jobs []Job) []JobResult {
 		}
 		if r.Job.Bound >= 0 {
 			unbounded = false
+			nBounded++
 			if r.Job.Bound < minBound {
 				minBound = r.Job.Bound
+			}
+			if r.Job.Delay {
+				anyDelay = true
+			} else {
+				anyPre = true
 			}
 		}
 		for o := range r.Outcomes {
@@ -220,7 +245,13 @@ func runJobs(c *vk.Ctx, jobs []Job) []JobResult {
 	if unbounded {
 		c.P.Bound = "unbounded (complete up to happens-before state caching)"
 	} else {
-		c.P.Bound = fmt.Sprintf("preemptions <= %d (some jobs unbounded)", minBound)
+		kind := "preemptions"
+		if anyDelay && !anyPre {
+			kind = "delays"
+		} else if anyDelay {
+			kind = "preemptions/delays"
+		}
+		c.P.Bound = fmt.Sprintf("%d of %d jobs unbounded (complete); the other %d complete up to %s <= %d (smallest bound; per-job bounds in the job names)", len(results)-nBounded, len(results), nBounded, kind, minBound)
 	}
 	return results
 }
